@@ -10,7 +10,8 @@
 (* invariant violated (C19_Algo_controls.cfg, run with -continue).         *)
 (*                                                                         *)
 (*  alg = "pow"    integer_power over Z_7, 2x2 matrices over Z_5 and words *)
-(*  alg = "euclid" extended_euclidean over -R..R                           *)
+(*  alg = "euclid" extended_euclidean / gcd / lcm over -R..R through every  *)
+(*                 entry point (algorithm, the traits objects)             *)
 (*  alg = "fft"    fft over Z_p for the lengths in FFTLens                 *)
 (*  alg = "map"    IdentityMapper.map_polynomial on abstract objects (one  *)
 (*                 step = one self.rec call, then the decision to return   *)
@@ -23,7 +24,7 @@ VARIABLES alg, pc, in, s, bug
 vars == << alg, pc, in, s, bug >>
 Bug == bug
 PowBugs == {"none", "drop_last", "no_square", "accept_negative"}
-EuBugs == {"none", "swap_forgot", "wrong_T"}
+EuBugs == {"none", "swap_forgot", "wrong_T", "forward_swapped", "coeffs_exchanged", "lcm_divides_twice"}
 FFTBugs == {"none", "stride", "twiddle"}
 MapBugs == {"none", "flag_overwritten", "base_ignored", "any_for_all", "generator_consumed"}
 
@@ -69,15 +70,24 @@ PowCostB == (alg = "pow" /\ pc \in {"loop", "done"} /\ in.n >= 0) => s.mults <= 
 PowDecreases == [][(alg = "pow" /\ pc = "loop" /\ pc' = "loop") => s'.n < s.n]_vars
 
 (**************************** extended_euclidean ***************************)
+(* The call enters through an entry point in.ep (C19_Arith, section (b')):  *)
+(* the entry hands the caller's operands (in.q, in.r) to the routine       *)
+(* (s.fq, s.fr), the routine loops, the entry hands the triple back; one   *)
+(* more step computes the entry's lcm from the gcd.  The result properties *)
+(* are about the CALLER's operands in the caller's order.                  *)
+(***************************************************************************)
 EuInit == /\ alg = "euclid" /\ pc = "start" /\ bug \in Bugs \cap EuBugs
-          /\ in \in { [q |-> q, r |-> r] : q \in -R..R, r \in -R..R }
-          /\ s = [q |-> 0, r |-> 0, QQ |-> << 0, 0 >>, RR |-> << 0, 0 >>, sw |-> FALSE]
+          /\ in \in { [q |-> q, r |-> r, ep |-> ep] : q \in -R..R, r \in -R..R, ep \in Entries }
+          /\ s = [q |-> 0, r |-> 0, QQ |-> << 0, 0 >>, RR |-> << 0, 0 >>, sw |-> FALSE, fq |-> 0, fr |-> 0,
+                   l |-> << 0, 0 >>]
 EuStart == /\ pc = "start" /\ UNCHANGED << alg, in, bug >>
            /\ pc' = "loop"
+           \* the entry: "return algorithm.extended_euclidean(q, r)"; then the routine:
            \* "if norm(q) < norm(r): p, a, b = extended_euclidean(r, q); return p, b, a"
-           /\ LET sw == Abs(in.q) < Abs(in.r) IN
-              s' = [q |-> (IF sw THEN in.r ELSE in.q), r |-> (IF sw THEN in.q ELSE in.r),
-                    QQ |-> << 1, 0 >>, RR |-> << 0, 1 >>, sw |-> sw]
+           /\ LET ops == FwdOperands(in.ep, in.q, in.r, Bug)
+                  sw == Abs(ops[1]) < Abs(ops[2]) IN
+              s' = [q |-> (IF sw THEN ops[2] ELSE ops[1]), r |-> (IF sw THEN ops[1] ELSE ops[2]),
+                    QQ |-> << 1, 0 >>, RR |-> << 0, 1 >>, sw |-> sw, fq |-> ops[1], fr |-> ops[2], l |-> << 0, 0 >>]
 EuLoop ==
     /\ pc = "loop" /\ UNCHANGED << alg, in, bug >>
     /\ IF s.r # 0
@@ -87,24 +97,39 @@ EuLoop ==
                         ELSE << s.QQ[1] - quot * s.RR[1], s.QQ[2] - quot * s.RR[2] >>
             IN pc' = "loop" /\ s' = [s EXCEPT !.q = s.r, !.r = t, !.QQ = s.RR, !.RR = TT]
        ELSE pc' = "done" /\ UNCHANGED s
-\* the operands the loop works on (after the norm-based swap)
-Eq0 == IF s.sw THEN in.r ELSE in.q
-Er0 == IF s.sw THEN in.q ELSE in.r
+\* the operands the loop works on (after the norm-based swap of what the routine was given)
+Eq0 == IF s.sw THEN s.fr ELSE s.fq
+Er0 == IF s.sw THEN s.fq ELSE s.fr
 EuBezoutInvB == (alg = "euclid" /\ pc \in {"loop", "done"}) =>
                   /\ s.QQ[1] * Eq0 + s.QQ[2] * Er0 = s.q
                   /\ s.RR[1] * Eq0 + s.RR[2] * Er0 = s.r
 \* the common divisors never change
 EuGcdInvB == (alg = "euclid" /\ pc \in {"loop", "done"}) =>
                 \A d \in 1..(2 * R + 1) : (Divides(d, s.q) /\ Divides(d, s.r)) <=> (Divides(d, in.q) /\ Divides(d, in.r))
-\* the returned triple (with the coefficients swapped back)
-EuG == s.q
-EuA == IF s.sw /\ Bug # "swap_forgot" THEN s.QQ[2] ELSE s.QQ[1]
-EuB == IF s.sw /\ Bug # "swap_forgot" THEN s.QQ[1] ELSE s.QQ[2]
-EuResultB == (alg = "euclid" /\ pc = "done") =>
+\* the triple the routine returns (with the coefficients swapped back) ...
+RtA == IF s.sw /\ Bug # "swap_forgot" THEN s.QQ[2] ELSE s.QQ[1]
+RtB == IF s.sw /\ Bug # "swap_forgot" THEN s.QQ[1] ELSE s.QQ[2]
+\* ... and the triple the caller gets from the entry
+EuT == BackTriple(in.ep, << s.q, RtA, RtB >>, Bug)
+EuG == EuT[1]
+EuA == EuT[2]
+EuB == EuT[3]
+EuResultB == (alg = "euclid" /\ pc \in {"done", "lcm"}) =>
                 Bezout(EuG, EuA, EuB, in.q, in.r) /\ IsGcd(EuG, in.q, in.r)
-\* the transcription used by the generator computes the same triple
-EuSameAsFunctionB == (alg = "euclid" /\ pc = "done") =>
-                        << EuG, EuA, EuB >> = ExtEuclid(in.q, in.r)
+\* the entry's lcm from its gcd: algorithm.lcm = abs(q*r)//gcd(q, r), traits lcm = a*b/gcd(a, b)
+EuLcmStep ==
+    /\ pc = "done" /\ pc' = "lcm" /\ UNCHANGED << alg, in, bug >>
+    /\ LET g == EuG IN
+       s' = [s EXCEPT !.l = IF g = 0 THEN << 0, 0 >>
+                            ELSE IF Bug = "lcm_divides_twice" THEN << 1, PyDiv(in.q, g) * PyDiv(in.r, g) >>
+                            ELSE IF in.ep = "alg" THEN << 1, PyDiv(Abs(in.q * in.r), g) >>
+                            ELSE << 1, PyDiv(in.q * in.r, g) >>]
+\* "lcm is consistent with it": refused only for (0, 0), else a least common multiple
+EuLcmB == (alg = "euclid" /\ pc = "lcm") =>
+             IF s.l[1] = 0 THEN in.q = 0 /\ in.r = 0 ELSE IsLcm(s.l[2], in.q, in.r)
+\* the transcription used by the generator computes the same triple and the same lcm
+EuSameAsFunctionB == /\ (alg = "euclid" /\ pc \in {"done", "lcm"}) => << EuG, EuA, EuB >> = EntryEE(in.ep, in.q, in.r)
+                     /\ (alg = "euclid" /\ pc = "lcm") => s.l = EntryLcm(in.ep, in.q, in.r)
 EuDecreases == [][(alg = "euclid" /\ pc = "loop" /\ pc' = "loop") => Abs(s'.r) < Abs(s.r)]_vars
 
 (**************************** fft ******************************************)
@@ -179,6 +204,7 @@ EuBezoutInv == bug = "none" => EuBezoutInvB
 EuGcdInv == bug = "none" => EuGcdInvB
 EuResult == bug = "none" => EuResultB
 EuSameAsFunction == bug = "none" => EuSameAsFunctionB
+EuLcm == bug = "none" => EuLcmB
 FFTResult == bug = "none" => FFTResultB
 MapFlagInv == bug = "none" => MapFlagInvB
 MapResult == bug = "none" => MapResultB
@@ -189,6 +215,15 @@ Ctl_no_square == bug = "no_square" => PowLoopInvB
 Ctl_accept_negative == bug = "accept_negative" => PowRefusalB
 Ctl_swap_forgot == bug = "swap_forgot" => EuResultB
 Ctl_wrong_T == bug = "wrong_T" => EuBezoutInvB
+\* the entry-point layer: operands handed on in the other order, coefficients handed back in the
+\* other order (both leave the gcd right), an lcm that divides by the gcd twice
+Ctl_forward_swapped == bug = "forward_swapped" => EuResultB
+Ctl_coeffs_exchanged == bug = "coeffs_exchanged" => EuResultB
+Ctl_lcm_divides_twice == bug = "lcm_divides_twice" => EuLcmB
+\* ... and what they leave intact: the routine's own invariants and "g is a gcd" (so that only the
+\* clause about the caller's order can see them) - checked with the code's invariants
+EntryBugKeepsGcd == (bug \in {"forward_swapped", "coeffs_exchanged"} /\ alg = "euclid" /\ pc \in {"done", "lcm"}) =>
+                       /\ IsGcd(EuG, in.q, in.r) /\ EuBezoutInvB /\ (in.ep = "alg" => EuResultB)
 Ctl_stride == bug = "stride" => FFTResultB
 Ctl_twiddle == bug = "twiddle" => FFTResultB
 Ctl_flag_overwritten == bug = "flag_overwritten" => MapFlagInvB
@@ -200,7 +235,7 @@ Ctl_generator_consumed == bug = "generator_consumed" => MapResultB
 (**************************** all together *********************************)
 Init == PowInit \/ EuInit \/ FFTInit \/ MapInit
 Next == \/ alg = "pow" /\ (PowStart \/ PowLoop)
-        \/ alg = "euclid" /\ (EuStart \/ EuLoop)
+        \/ alg = "euclid" /\ (EuStart \/ EuLoop \/ EuLcmStep)
         \/ alg = "fft" /\ FFTStep
         \/ alg = "map" /\ (MapBase \/ MapCoeffStep)
 Spec == Init /\ [][Next]_vars
